@@ -71,6 +71,7 @@ func (t *T0x1210) Parse(jtMsg *jt808.JTMessage) error {
 		return protocol.ErrBodyLengthInconsistency
 	}
 	start := cursor
+	t.T0x1210AlarmItemList = nil // 复用时不保留上一次解析的列表
 	for i := 0; i < int(t.AttachCount); i++ {
 		if start >= len(body) { // 前面的文件名称占用了后面附件的位置
 			return protocol.ErrBodyLengthInconsistency
